@@ -211,7 +211,38 @@ class History:
 
     OPS = ['ctor_vec', 'ctor_ang', 'ctor_mat', 'from_str', 'with_axes', 'set_vec', 'set_ang', 'iop_vec', 'imul_ang',
            'imatmul', 'matmul', 'transform_vec', 'transform_ang', 'to_angle', 'vec_to_angle', 'from_basis', 'arith',
-           'copies', 'freeze_thaw', 'text', 'mat_ops', 'ang_mul', 'rotate_legacy', 'set_mat', 'tiny_rot', 'gimbal_cancel']
+           'copies', 'freeze_thaw', 'text', 'mat_ops', 'ang_mul', 'rotate_legacy', 'set_mat', 'tiny_rot', 'gimbal_cancel',
+           'frozen_assign']
+
+    def op_frozen_assign(self):
+        """Every way of writing to a frozen object.  Whether the attempt raises is not this property's business
+        ("no operation ever changes the observable value"): the invariant after the step decides."""
+        sm, rng = self.sm, self.rng
+        o = self.pick(sm.FrozenVec, sm.FrozenAngle, sm.FrozenMatrix)
+        if not isinstance(o, (sm.FrozenVec, sm.FrozenAngle, sm.FrozenMatrix)):
+            o = self.make(rng.choice((sm.FrozenVec, sm.FrozenAngle, sm.FrozenMatrix)))
+        val = num(rng)
+        if isinstance(o, sm.FrozenVec):
+            names, idx = ('x', 'y', 'z'), (0, 1, 2, 'x', 'y', 'z')
+        elif isinstance(o, sm.FrozenAngle):
+            names, idx = ('pitch', 'yaw', 'roll'), (0, 1, 2, 'p', 'y', 'r', 'pitch', 'yaw', 'roll')
+        else:
+            names, idx = (), ((0, 0), (1, 2), (2, 2))
+        how = rng.randrange(4)
+        outcome = 'accepted'
+        try:
+            if how == 0 and names:
+                setattr(o, rng.choice(names), val)
+            elif how == 1:
+                o[rng.choice(idx)] = val
+            elif how == 2 and names:
+                delattr(o, rng.choice(names))
+            else:
+                o.__init__(val, val, val) if names else o.__init__()  # running the initialiser again on a live object
+        except Exception as exc:
+            outcome = type(exc).__name__
+        self.run.count('frozen_write_attempts')
+        self.log.append(f'write attempt #{how} on a {type(o).__name__} -> {outcome}')
 
     def op_ctor_vec(self):
         sm, rng = self.sm, self.rng
